@@ -109,10 +109,11 @@ func main() {
 				// scripted: leaders that exit and leave a child holding their output; the first two are met only by the
 				// Kill of the clean-up, the others by a Terminate (group observed afterwards)
 				opt.Procs = 8
-				// (index 4 has the slow log writer: its process exits at 30 ms, its last words are being written until
-				//  about 280 ms, the Kill comes at 130 ms and must succeed)
+				// (index 4 has a slow log writer: its process exits at 30 ms, its last words are being written until
+				//  about 730 ms, the Kill comes at 130 ms, waits for them and succeeds; the Terminates of the others at
+				//  150 ms do not wait for anything)
 				opt.Fixed = []supv.FixedProc{{Beh: "orphan0", Delay: 0}, {Beh: "orphan0", Delay: 30}, {Beh: "orphan0", Delay: 80}, {Beh: "fork", Delay: 0},
-					{Beh: "exit0", Delay: 30, KillAtMs: 130},
+					{Beh: "exit0", Delay: 30, KillAtMs: 130, SinkMs: 700},
 					{Beh: "orphanq", Delay: 0}, {Beh: "orphanq", Delay: 80}, {Beh: "exit137", Delay: 30}}
 			}
 			if *fake {
